@@ -289,9 +289,18 @@ func Verif_C04_inactive() {
 	page := vfPage("page")
 	frame := mm.Frame(zzverif.U64("frame") & (1<<40 - 1))
 	flags := PageTableEntryFlag(zzverif.Uintptr("flags")&vfFlagMask&^uintptr(FlagHugePage)) | FlagPresent
-	doUnmap := zzverif.Choice("then-unmap", 2) == 1
-	err = pdt.Map(page, frame, flags)
-	if err != nil {
+	// three requests on the inactive space: Map; Map then Unmap; Unmap of a page that was never mapped there (the
+	// error path must restore the active root's recursive slot as well: seeded C04-w5m1)
+	mode := zzverif.Choice("then-unmap", 3)
+	doUnmap := mode == 1
+	if mode == 2 {
+		err = pdt.Unmap(page)
+		zzverif.Assert(err != nil, "unmapping a page that is not mapped in the inactive space reports an error")
+		zzverif.Reach("unmap-unmapped")
+	} else {
+		err = pdt.Map(page, frame, flags)
+	}
+	if mode != 2 && err != nil {
 		zzverif.Reach("map-failed")
 		zzverif.Assert(zzverif.And(m.failAt >= 0, m.failAt < m.allocs), "Map fails only when the frame allocator failed")
 	} else if doUnmap {
